@@ -240,7 +240,8 @@ ChildRemove(c) ==
     /\ ent' = [ent EXCEPT ![c] = NoRes]
     /\ iss' = [iss EXCEPT ![c] = NoCerts]
     /\ sus' = [sus EXCEPT ![c] = NoCerts]
-    /\ tasks' = IF HasCerts(c) THEN tasks \cup {SR(parent[c])} ELSE tasks
+    \* (suspended certificates are revoked too: a new CRL is published)
+    /\ tasks' = IF HasCerts(c) \/ HasSus(c) THEN tasks \cup {SR(parent[c])} ELSE tasks
     /\ kst' = [kst EXCEPT ![c] = "none"]         \* status_store.remove_child
     /\ UNCHANGED <<pubknown, pst, rst, exists, gone, parent, rc, rcv, req, routes, pub>>
 
